@@ -119,7 +119,7 @@ def is_plain_callable_object(obj):
 
 
 ADVERSARIAL = r'''
-import functools, contextlib, asyncio
+import functools, contextlib, asyncio, inspect
 import sigtools.specifiers
 def callee(x, y=1, *, z=2): return None
 def other(*a, **k): return None
@@ -456,6 +456,128 @@ class A_Model:
             instance.__dict__[self.column] = value
     field_class = Field
     col = Column('c')
+# a keyword-only parameter of the forwarder whose NAME the callee also has (consumed by the
+# forwarder, never passed on): required / optional on either side, reached through *args and
+# **kwargs, **kwargs only, a bare star, a method, a callee parameter that is positional-or-keyword
+def callee_pok(x, key=0, flag=False): return None
+def callee_req(x, *, key): return None
+def a_kwshared_req_opt(*args, z, **kwargs):
+    return z, callee(*args, **kwargs)
+def a_kwshared_opt_opt(*args, z=5, **kwargs):
+    return z, callee(*args, **kwargs)
+def a_kwshared_opt_req(*args, key=5, **kwargs):
+    return key, callee_req(*args, **kwargs)
+def a_kwshared_req_req(*args, key, **kwargs):
+    return key, callee_req(*args, **kwargs)
+def a_kwshared_kwargs_only(a, *, key, **kwargs):
+    return a, key, callee_pok(**kwargs)
+def a_kwshared_barestar(*, z, **kwargs):
+    return z, callee(0, **kwargs)
+def a_kwshared_pok_name(*args, y, **kwargs):
+    return y, callee(*args, **kwargs)
+def a_kwshared_two(*args, y, z, **kwargs):
+    return y, z, callee(*args, **kwargs)
+def a_kwshared_partly(a, *args, flag, other_flag=None, **kwargs):
+    return flag, callee_pok(a, **kwargs)
+def a_kwshared_annotated(*args, z: int, **kwargs) -> None:
+    return z, callee(*args, **kwargs)
+def a_kwshared_chain(*args, z, **kwargs):
+    return z, a_fwd_plain(*args, **kwargs)
+def a_kwshared_passed_on(*args, z, **kwargs):
+    return callee(*args, z=z, **kwargs)
+a_kwshared_lambda = lambda *a, z, **k: callee(*a, **k)
+class A_KwShared:
+    def m(self, *args, z, **kwargs):
+        return z, callee(*args, **kwargs)
+    def via_self(self, *args, q, **kwargs):
+        return q, self.n(*args, **kwargs)
+    def n(self, p, q=1):
+        return None
+    @classmethod
+    def c(cls, *args, key, **kwargs):
+        return key, callee_pok(*args, **kwargs)
+    @staticmethod
+    def s(*, key, **kwargs):
+        return key, callee_pok(1, **kwargs)
+    def __call__(self, *args, z, **kwargs):
+        return z, callee(*args, **kwargs)
+a_kwshared_bound = A_KwShared().m
+a_kwshared_bound_self = A_KwShared().via_self
+a_kwshared_instance = A_KwShared()
+# objects on which __wrapped__ / __signature__ can be read but neither deleted nor assigned:
+# raw static / class method objects as a class __dict__ holds them, instances without a
+# per-instance __dict__ entry (slots, frozen dataclass) whose class carries the attribute
+import dataclasses
+a_raw_static = vars(A_Meth)['s']
+a_raw_classm = vars(A_Meth)['c']
+a_raw_static_fwd = staticmethod(a_fwd_plain)
+a_raw_classm_fwd = classmethod(a_posonly)
+a_raw_static_of_partial = staticmethod(a_partial_kw)
+class A_SlottedSig:
+    __slots__ = ()
+    __signature__ = inspect.signature(callee)
+    def __call__(self, *args, **kwargs):
+        return callee(*args, **kwargs)
+a_slotted_sig = A_SlottedSig()
+class A_SlottedWrapped:
+    __slots__ = ('q',)
+    __wrapped__ = callee
+    def __call__(self, *args, **kwargs):
+        return callee(*args, **kwargs)
+a_slotted_wrapped = A_SlottedWrapped()
+class A_SlottedBoth:
+    __slots__ = ()
+    __wrapped__ = callee_pok
+    __signature__ = inspect.signature(callee)
+    def __call__(self, a, *args, **kwargs):
+        return callee(*args, **kwargs)
+a_slotted_both = A_SlottedBoth()
+@dataclasses.dataclass(frozen=True)
+class A_FrozenSig:
+    factor: int = 1
+    __signature__ = inspect.signature(callee)
+    def __call__(self, *args, **kwargs):
+        return callee(*args, **kwargs)
+a_frozen_sig = A_FrozenSig()
+@dataclasses.dataclass(frozen=True)
+class A_FrozenWrapped:
+    factor: int = 1
+    __wrapped__ = callee
+    def __call__(self, *args, **kwargs):
+        return callee(*args, **kwargs)
+a_frozen_wrapped = A_FrozenWrapped()
+class A_ClassLevelSig:
+    __signature__ = inspect.signature(callee)
+    def __call__(self, *args, **kwargs):
+        return callee(*args, **kwargs)
+class A_InheritsSig(A_SlottedSig):
+    __slots__ = ()
+a_classlevel_sig = A_ClassLevelSig()
+a_inherits_sig = A_InheritsSig()
+class A_ReadOnlyProp:
+    # __signature__ / __wrapped__ computed by a property without setter
+    @property
+    def __signature__(self):
+        return inspect.signature(callee)
+    @property
+    def __wrapped__(self):
+        return callee
+    def __call__(self, *args, **kwargs):
+        return callee(*args, **kwargs)
+a_readonly_prop = A_ReadOnlyProp()
+a_builtin_method_wrapper = callee.__call__
+# bound methods whose function cannot take the instance: inspect.signature raises ValueError
+class A_BadMethods:
+    def m(**kwargs):
+        return callee(**kwargs)
+    def n():
+        return None
+    def k(*, self):
+        return None
+a_bad_m = A_BadMethods().m
+a_bad_n = A_BadMethods().n
+a_bad_k = A_BadMethods().k
+a_bad_partial = functools.partial(A_BadMethods().n)
 '''
 
 
